@@ -1,8 +1,19 @@
 #!/bin/bash
-# usage: run.sh <replayer> <cex.json>; exit 1 = violation reproduced against the real build of /repo,
-# 0 = not reproduced, anything else = replayer error. Builds against /repo's current working tree.
-cd /verif/replay || exit 3
+# usage: run.sh <replayer> <cex.json>; exit 1 = violation reproduced against the real build of the
+# repository under check (VERIF_REPO, default /repo), 0 = not reproduced, anything else = replayer
+# error. Builds against the repository's current working tree.
+REPO=${VERIF_REPO:-/repo}
+KEY=$(echo "$REPO" | md5sum | cut -c1-8)
+B=/verif/.work/replay-build-$KEY
+mkdir -p $B
+rsync -a --delete --exclude run.sh /verif/replay/ $B/
+sed -i "s#path = \"/repo\"#path = \"$REPO\"#" $B/Cargo.toml
+cp $REPO/Cargo.lock $B/Cargo.lock 2>/dev/null
+cd $B || exit 3
 export CARGO_NET_OFFLINE=true
-export CARGO_TARGET_DIR=/verif/.work/replay-target
+export CARGO_TARGET_DIR=/verif/.work/replay-target-$KEY
 cargo build --offline -q 2>/verif/.work/replay-build.log || { tail -20 /verif/.work/replay-build.log; exit 3; }
-exec /verif/.work/replay-target/debug/verif_replay "$@"
+$CARGO_TARGET_DIR/debug/verif_replay "$@"
+rc=$?
+if [ "$REPO" != "/repo" ]; then rm -rf $B $CARGO_TARGET_DIR; fi
+exit $rc
